@@ -474,12 +474,34 @@ func (c rtCase) spellable() (int, string) {
 	return spellYes, ""
 }
 
-// jsonCollision: two column names whose period-separated paths collide
-// (one path is a prefix of the other): "a.b" with "a".
+// jsonPath: the member path a column name stands for in JSON output: the name
+// is trimmed, an unescaped period separates members, `\.` is a literal
+// period and `\\` a literal backslash (lib/json/path_scanner.go).
+func jsonPath(h string) []string {
+	var segs []string
+	var cur strings.Builder
+	rs := []rune(trimBlank(h))
+	for i := 0; i < len(rs); i++ {
+		switch {
+		case rs[i] == '\\' && i+1 < len(rs) && (rs[i+1] == '.' || rs[i+1] == '\\'):
+			cur.WriteRune(rs[i+1])
+			i++
+		case rs[i] == '.':
+			segs = append(segs, cur.String())
+			cur.Reset()
+		default:
+			cur.WriteRune(rs[i])
+		}
+	}
+	return append(segs, cur.String())
+}
+
+// jsonCollision: two column names whose member paths collide (one path is a
+// prefix of, or equal to, the other): "a.b" with "a"; `\\a` with `\a`.
 func jsonCollision(header []string) bool {
 	paths := make([][]string, len(header))
 	for i, h := range header {
-		paths[i] = strings.Split(h, ".")
+		paths[i] = jsonPath(h)
 	}
 	for i := range paths {
 		for j := range paths {
@@ -764,7 +786,7 @@ func genHeader(t *rapid.T, c *rtCase, n int, dirty bool) []string {
 	if c.isJSON() && avoiding(avoidJSONDuplicateMember, "json_duplicate_member") {
 		for jsonCollision(out) {
 			for i := range out {
-				out[i] = strings.ReplaceAll(out[i], ".", "_")
+				out[i] = strings.ReplaceAll(strings.ReplaceAll(out[i], ".", "_"), `\`, "/")
 				if !jsonCollision(out) {
 					break
 				}
